@@ -18,6 +18,16 @@ def sh(*a, **k):
 
 
 patches = sorted(glob.glob(os.path.join(ROOT, "fixes", pid + "-*.patch")))
+# patches whose slug already has a commit recorded in known/<pid>*.jsonl were applied earlier
+recorded = set()
+for kfp in glob.glob(os.path.join(ROOT, "known", pid + "*.jsonl")):
+    for l in open(kfp):
+        if l.strip() and not l.startswith("#"):
+            k = json.loads(l)
+            if k.get("status") == "fixed" and k.get("commit") not in (None, "PENDING"):
+                recorded.add(k["key"])
+applied_log = os.path.join(ROOT, "fixes", "APPLIED")
+already = set(open(applied_log).read().split()) if os.path.exists(applied_log) else set()
 done = {}
 for p in patches:
     slug = re.sub(r"^%s-\d+-" % pid, "", os.path.basename(p)[:-6])
@@ -25,6 +35,8 @@ for p in patches:
     msg = open(msgf).read().strip() if os.path.exists(msgf) else "fix: " + slug
     if not msg.startswith("fix:"):
         msg = "fix: " + msg
+    if os.path.basename(p) in already:
+        continue    # already applied (recorded in fixes/APPLIED)
     if sh("git", "-C", REPO, "apply", "--check", "--reverse", p).returncode == 0:
         continue    # already applied
     r = sh("git", "-C", REPO, "apply", "--check", p)
@@ -45,6 +57,8 @@ for p in patches:
     h = sh("git", "-C", REPO, "rev-parse", "--short", "HEAD").stdout.strip()
     print("applied", os.path.basename(p), "->", h, "|", msg.split("\n")[0])
     done[slug] = h
+    with open(applied_log, "a") as f:
+        f.write(os.path.basename(p) + "\n")
 for kf in sorted(glob.glob(os.path.join(ROOT, "known", pid + "*.jsonl"))) if done else []:
     out = []
     for l in open(kf):
